@@ -24,7 +24,9 @@ from ..rec import Rec, close
 LEVEL = 'exploration'
 RULE = (
     'cases = the seeded choice-model configurations of C05 (2-7 alternatives with arbitrary labels, 3-6 rows of utilities '
-    'and availability patterns incl. whole nests unavailable, nested structures with alternatives left alone, nest '
+    'and availability patterns incl. whole nests unavailable, availability dictionaries in several object-sharing styles '
+    '(fresh expression per alternative / one Variable or compound object reused by members of a nest and across nests / one '
+    'Numeric(1) object / plain int, bool / None), utilities sharing or not their sub-expression objects, nested structures with alternatives left alone, nest '
     'parameters in [1,10] as float/Numeric/fixed or free Beta, scale in [1, min nest parameter]) plus directed ones; on '
     'each, five families of relations between two executions of the real model functions are evaluated on every row. A '
     'case is non-trivial when >= 3 relations were evaluated on >= 1 row with >= 2 available alternatives; distinct = hash of '
@@ -47,6 +49,9 @@ DIRECTED = [
     {'name': 'no_alone', 'force': {'J': 5, 'av_mode': 'var', 'n_alone': 0}},
     {'name': 'two_alternatives', 'force': {'J': 2, 'av_mode': 'var', 'n_alone': 0}},
     {'name': 'seven_alternatives', 'force': {'J': 7, 'av_mode': 'mixed', 'n_alone': 2, 'n_alone_cnl': 2}},
+    {'name': 'nest_members_share_availability_variable', 'force': {'J': 5, 'av_mode': 'var', 'av_share': 'group_var', 'n_alone': 1}},
+    {'name': 'nest_members_share_availability_expression', 'force': {'J': 6, 'av_mode': 'var', 'av_share': 'group_expr', 'n_alone': 0}},
+    {'name': 'always_available_share_one_object', 'force': {'J': 5, 'av_mode': 'mixed', 'av_share': 'one_object', 'one_kind': 'numeric', 'n_alone': 1}},
     {'name': 'linear_utilities', 'force': {'J': 4, 'av_mode': 'var', 'n_alone': 1, 'util_form': 'lin'}},
 ]
 
@@ -259,6 +264,8 @@ def run_case(case):
         elif v:
             rec.c('feature_' + k, v if k.startswith('rows_') else 1)
     rec.c('availability_' + cfg['av_mode'])
+    rec.c('availability_objects_' + cfg['av_share'])
+    rec.c('utility_objects_' + cfg['util_share'])
     rec.c('utility_form_' + cfg['util_form'])
     for kd in nl_kinds:
         rec.c('nest_parameter_kind_' + kd)
@@ -278,8 +285,10 @@ def _generating(rec, cfg, viol, ev, relations_done):
     alts = cfg['alts']
     none = cfg['av_mode'] == 'none'
     rows = cfg['rows']
-    base = pd.DataFrame([{**{f'V{a}': float(r['V'][j]) for j, a in enumerate(alts)},
-                          **{f'A{a}': float(r['A'][j]) for j, a in enumerate(alts)}} for r in rows])
+    # the table of the configuration (availability columns incl. the shared group columns) + plain utility columns
+    base = g.table(cfg, with_shifts=False)
+    for j, a in enumerate(alts):
+        base[f'V{a}'] = [float(r['V'][j]) for r in rows]
     dbs = {'0': bdb.Database('c06g', base.copy())}
     h = 1e-3
 
@@ -295,9 +304,8 @@ def _generating(rec, cfg, viol, ev, relations_done):
         return {a: ex.Variable(f'V{a}') for a in alts}
 
     def AV():
-        if none:
-            return None
-        return {a: (ex.Variable(f'A{a}')) for a in alts}
+        # the availability dictionary in the configuration's object-sharing style (fresh objects at every call)
+        return g.Builder(cfg).av()
 
     b = g.Builder(cfg)
     alone = set(alts) - {a for n in cfg['nl'] for a in n['alts']}
@@ -367,7 +375,10 @@ def finalize(cov, tier):
             'relation_nested_mev_mu-scale-one-vs-nested', 'relation_cnlmu-scale-one-vs-cnl', 'relation_tuple-syntax-nested',
             'relation_tuple-syntax-cnl', 'relation_tuple-syntax-cnlmu', 'relation_tuple-syntax-generating-function',
             'derive_route_nest-member', 'derive_route_alone-alternative', 'central_difference_nest-member',
-            'central_difference_alone-alternative', 'feature_rows_whole_nest_unavailable', 'feature_nl_alone', 'availability_none']
+            'central_difference_alone-alternative', 'feature_rows_whole_nest_unavailable', 'feature_nl_alone', 'availability_none',
+            'feature_same_nest_members_share_availability_object', 'feature_availability_object_shared_across_nests',
+            'availability_objects_group_var', 'availability_objects_group_expr', 'availability_objects_one_object',
+            'utility_objects_shared']
     for k in need:
         if cov.get(k, 0) == 0:
             out.append(f'relation / workload feature never observed: {k}')
